@@ -17,7 +17,7 @@ import z3
 from contracts.lattices import *
 from contracts.common import result, cover
 from pyvc.values import E, eq
-from pyvc.solve import check, minimise
+from pyvc.solve import check, minimise, mod_lemma, linearise_mod
 from pyvc.runner import Ob, load_known
 
 PROPERTY = 'C01'
@@ -62,11 +62,18 @@ def _funcs(lat):
 def ob_comm(cls, arA, arB, timeout=120, types=None):
     lat, pre = lattice(cls)
     goal, (a, b, ma, mb, sa, sb) = comm_query(lat, pre, arA, arB)
+    vac = None
     if types is not None:
+        # one obligation per pair of stabilizer types (get_stabilizer is executed once for a location of ANY type; its symbolic support carries the entries
+        # of every branch, 34 for Color3DCode, and the type hypothesis selects the live ones)
         ta, tb = lat.stab_type(a), lat.stab_type(b)
-        goal = goal + [eq(ta, E.const(types[0])), eq(tb, E.const(types[1]))]
+        hyp = goal[:-1] + [eq(ta, E.const(types[0])), eq(tb, E.const(types[1]))]
+        vac = 'cover (two generators of types %s, %s exist): %s' % (types[0], types[1], check(hyp, 30, fallbacks=False)['verdict'])
+        goal = hyp + [goal[-1]]
+    goal, n_lin, n_left = linearise_mod(goal)       # same models (see pyvc.solve.linearise_mod); the counter-model search below uses the same assertions
     r = check(goal, timeout)
-    extra = dict(detail='entries %dx%d' % (len(ma.entries), len(mb.entries)), approx=lat.approx_sites)
+    r['linearised'] = (n_lin, n_left)
+    extra = dict(detail='entries %dx%d; mod-by-period terms linearised/left: %s' % (len(ma.entries), len(mb.entries), r.get('linearised')), approx=lat.approx_sites)
     if r['verdict'] == 'sat':
         mdl = minimise(goal, [z3.Sum(list(lat.L))] + list(a) + list(b), timeout_s=20)
         if mdl is not None:
@@ -74,6 +81,7 @@ def ob_comm(cls, arA, arB, timeout=120, types=None):
     out = result('comm', r, _funcs(lat), None, goal, **extra)
     out['transparent'] = sorted(lat.transparent)
     out['cls'] = cls; out['ar'] = (arA, arB)
+    out['vacuity'] = '%s: %smod-by-period terms linearised %d, left non-linear %d' % ('comm[%s,%s,%s]' % ((cls,) + tuple(types or (arA, arB))), vac + '; ' if vac else '', n_lin, n_left)
     return out
 
 
@@ -121,8 +129,7 @@ def ob_logcomm(cls, kind, timeout=120, only=None):
         for li, (g, acc) in enumerate(logs):
             if only is not None and (ar, li) != tuple(only):
                 continue
-            cnt = logical_vs_stab_count(lat, acc, me)
-            goal = [pre, lat.S(a), g.cond, cnt % 2 != 0]
+            goal, _, _ = linearise_mod([pre, lat.S(a), g.cond, logical_vs_stab_odd(lat, acc, me)])
             r = check(goal, timeout)
             details.append((ar, li, r['verdict'], round(r['seconds'], 2)))
             if r['verdict'] != 'unsat':
@@ -274,14 +281,20 @@ def ob_pair(cls, timeout=60):
 TYPE_SPLIT = ['Color3DCode', 'Color666ToricCode']
 
 
+def ob_mod_lemma(timeout=30):
+    """the rewrite rule of pyvc.solve.linearise_mod, discharged on every run:  d > 0 and -d <= t < 2d  =>  t mod d = ite(t<0, t+d, ite(t>=d, t-d, t))"""
+    goal = mod_lemma()
+    return result('lemma', check(goal, timeout), [], None, goal, detail='rewrite rule used to linearise coordinates taken modulo a lattice period')
+
+
 def ob_unplannable(cls, why):
     raise Unsupported('obligations of %s could not be generated: %s' % (cls, why))
 
 
 def obligations(tier):
-    to = 330 if tier == 'quick' else 900       # z3 time limit per query; the slowest quick obligation takes 30 s alone, up to 125 s with 16 solvers running, and
-    #                                            was seen to exceed 150 s on a machine shared with other work; after a time-out the fall-back solvers get 40 s only
-    obs = []
+    to = 330 if tier == 'quick' else 900       # z3 time limit per query: ten times what the slowest obligation takes with 16 solvers running (~30 s);
+    #                                            after a time-out the fall-back solvers get 40 s only
+    obs = [Ob('C01.lemma[mod-linearisation]', ob_mod_lemma, dict(timeout=30), timeout=30)]
     for cls in P_COMM:
         try:
             lat, pre = lattice(cls)
@@ -310,11 +323,7 @@ def obligations(tier):
                         obs.append(Ob('C01.logcomm[%s,%s%d,arity%d]' % (cls, k, li, ar), ob_logcomm,
                                       dict(cls=cls, kind=k, timeout=to, only=(ar, li)), timeout=to))
             obs.append(Ob('C01.pair[%s]' % cls, ob_pair, dict(cls=cls, timeout=min(to, 60)), timeout=to * 4))
-    if tier == 'quick':
-        # calibrated on the unchanged tree (16 cores): these take 2-7 min each; they run in the thorough tier only.
-        # The bounded layer still visits these classes on every quick run.
-        slow = lambda n: (n.startswith('C01.comm[Color666ToricCode') or n == 'C01.comm[RhombicToricCode,3,4]')      # noqa
-        obs = [o for o in obs if not slow(o.name)]
+    # both tiers discharge the same obligations (with the xor / linearised encoding the slowest takes ~30 s); the tiers differ in time limits and in the bounded layer
     # slowest first so the pool stays busy
     heavy = ('Color3DCode', 'Color666ToricCode', 'Toric3DCode', 'RotatedToric3DCode', 'RhombicToricCode', 'XCubeCode')
     obs.sort(key=lambda o: 0 if any(h in o.name for h in heavy) else 1)
@@ -334,6 +343,9 @@ from bounded import codes as BC    # noqa
 from bounded.util import toint, supported, all_code_classes    # noqa
 
 
+REPLAY_MAX_CELLS = 1500
+
+
 def _model_size(m, dim):
     return tuple(max(1, toint(m.get('L' + c), 2)) for c in 'xyz'[:dim])
 
@@ -346,6 +358,10 @@ def replay(r):
     size = _model_size(m, dim)
     if 'Lx' not in m:
         return dict(confirmed=None, detail='no lattice size in the counter-model')
+    if int(np.prod(size)) > REPLAY_MAX_CELLS:
+        # a counter-model that could not be shrunk: building the real lattice would take minutes to hours.  Not replayed (the runner then reports the
+        # refuted obligation with whatever failing input the bounded layer found, or as no-failing-input-found)
+        return dict(confirmed=None, input=dict(code=cls, size=size), detail='counter-model lattice %s too large to build natively (limit %d cells)' % (size, REPLAY_MAX_CELLS))
     try:
         code = BC.make(cls, size)
         what = r['name'].split('.')[1].split('[')[0]
